@@ -8,6 +8,7 @@
   `…_not_atomic` counterexamples below (replayed on the implementation by the harness).
 -/
 import Proofs.Atomic
+import Proofs.AtomicDelay
 import Proofs.SeqInv
 import Proofs.ReplayLog
 namespace Pulser
@@ -37,6 +38,7 @@ def early (op : Op) (e : Err) : Bool :=
   | .declare _ _ none | .configDetMap .. | .measure .. | .phaseShift .. => true
   | .add .. | .addDmm .. | .addEom .. => e != .noBasis && e != .unknownQubit
   | .target .. => !e.isSched
+  | .delay .. => e == .durTooShort || e == .durTooLong
   | _ => false
 
 theorem store_st_of_err {op : Op} {r : Raw} {e : Err} (h : (store op r).err = some e) :
@@ -57,7 +59,8 @@ theorem markNonEmpty_st_of_err {r : Raw} {e : Err} (h : (markNonEmpty r).err = s
 and error class in `early`: all errors of `add` / `add_eom_pulse` / `add_dmm_detuning`
 (typestate, protocol, phase references, every limit, duration and over-long-sequence
 error), of `measure`, `phase_shift`, `config_detuning_map`, `declare_channel` without
-initial target, and the validation errors of `target`.  The remaining (operation, error)
+initial target, the validation errors of `target`, and (since the repair of F2.1/F2.2) a
+`delay` refused for its duration.  The remaining (operation, error)
 pairs are the known findings F2.x, see the counterexamples below. -/
 theorem failed_call_atomic_partial (s : SeqState) (op : Op) (e : Err)
     (h : (stepRaw s op).err = some e) (he : early op e = true) : (stepRaw s op).st = s := by
@@ -152,7 +155,11 @@ theorem failed_call_atomic_partial (s : SeqState) (op : Op) (e : Err)
       · rw [if_pos g1]; rfl
       · rw [if_neg g1] at h1
         simp [done] at h1
-  | delay _ _ _ => simp [early] at he
+  | delay d n atRest =>
+    simp only [stepRaw] at h ⊢
+    obtain ⟨h1, h2⟩ := store_st_of_err h
+    rw [h2]
+    exact delayChecked_atomic h1 (by simpa [early] using he)
   | align _ _ => simp [early] at he
   | enableEom _ _ => simp [early] at he
   | modifyEom _ _ => simp [early] at he
@@ -207,10 +214,17 @@ def sPulse : SeqState :=
   run (SeqState.init exDev 1)
     [.declare (.user 0) 0 none, .add { dur := 100, fallStd := 240, ref := 1 } (.user 0) (some .minDelay)]
 
-/-- F2: `delay(3, at_rest=True)` raises (3 < min_duration) but the 240 ns fall-time wait stays. -/
-theorem delay_at_rest_not_atomic :
+/-- F2.1, as it was: on the unchecked path (`_delay` without the duration pre-check)
+`delay(3, at_rest=True)` raises (3 < min_duration) but the 240 ns fall-time wait stays. -/
+theorem delay_at_rest_not_atomic_old :
+    (delayCore sPulse 3 (.user 0) true).err = some .durTooShort ∧
+    (delayCore sPulse 3 (.user 0) true).st ≠ sPulse := by decide +kernel
+
+/-- ... and after the repair (the duration is validated before the fall wait is appended) the
+refused call leaves the sequence as it was. -/
+theorem delay_at_rest_atomic :
     (stepRaw sPulse (.delay 3 (.user 0) true)).err = some .durTooShort ∧
-    (stepRaw sPulse (.delay 3 (.user 0) true)).st ≠ sPulse := by decide +kernel
+    (stepRaw sPulse (.delay 3 (.user 0) true)).st = sPulse := by decide +kernel
 
 /-- F2: `declare_channel(initial_target=[])` raises but the channel stays declared. -/
 theorem declare_bad_target_not_atomic :
